@@ -26,6 +26,26 @@ impl PExpr {
 
 const TEST_LETTERS: [char; 6] = ['p', 'q', 'r', 's', 't', 'u'];
 
+struct RefLike;
+impl RefLike {
+    fn balanced(toks: &[Value]) -> bool {
+        let mut d = 0i32;
+        for t in toks {
+            match t.as_str().unwrap_or("") {
+                "lp" => d += 1,
+                "rp" => {
+                    d -= 1;
+                    if d < 0 {
+                        return false;
+                    }
+                }
+                _ => {}
+            }
+        }
+        d == 0
+    }
+}
+
 fn test_index(t: &str) -> Option<usize> {
     let k: usize = t.strip_prefix('t')?.parse().ok()?;
     if (1..=6).contains(&k) {
@@ -91,6 +111,9 @@ pub fn expr_args(toks: &[String], form: u64, destructive: bool, vrec: &str) -> V
         let v = form.wrapping_add(pos as u64);
         match t.as_str() {
             "true" => a.push("-true".into()),
+            // an action without output whose command line fails when it is dispatched (at the end of a starting point):
+            // to the expression a constant true, to find's exit status a failure
+            "xfail" => a.extend(["-exec", "false", "{}", "+"].iter().map(|x| x.to_string())),
             "false" => a.push("-false".into()),
             "prune" => a.push("-prune".into()),
             "quit" => a.push("-quit".into()),
@@ -314,6 +337,15 @@ impl Prop for PExpr {
         let mut v = json!({"toks": toks, "files": files, "form": rng.below(1000)});
         if files[0]["sub"].as_u64().unwrap_or(0) >= 1 && rng.chance(1, 4) {
             v["split"] = json!(true);
+            // with an action in the expression anyway: ", -exec false {} +" at the end - the starting point on which -quit
+            // is evaluated then ends with a non-zero status, and the run is over all the same
+            let has_action = arr(&v["toks"]).iter().any(|t| matches!(t.as_str().unwrap_or(""), "a1" | "a2" | "a3" | "a4" | "a5" | "a6"));
+            if has_action && RefLike::balanced(&arr(&v["toks"])) && rng.chance(1, 2) {
+                let mut t = arr(&v["toks"]);
+                t.push(json!("comma"));
+                t.push(json!("xfail"));
+                v["toks"] = json!(t);
+            }
         }
         v
     }
